@@ -30,6 +30,9 @@ Definition fanout (m : mst) (sf : lfeat) (fn v : N) : list obs :=
   map (fun x => ONotify (s_ski x) (lf_addr sf) (s_cli x) fn v)
       (filter (fun x => eqb_srv (s_srv x) (lf_ent sf, lf_id sf)) (reg m)).
 
+Definition complete_entry (p d : N) (x : sentry) : sentry :=
+  if N.eqb (s_ski x) p then {| s_srv := s_srv x; s_ski := s_ski x; s_cli := complete_cli d (s_cli x) |} else x.
+
 (* no notification and no subscription event *)
 Definition quiet (out : list obs) : verdict :=
   check (negb (existsb is_notify out) && negb (existsb is_sub_event out)) CL_STRAY.
@@ -155,6 +158,17 @@ Definition mon (m : mst) (o : op) (out : list obs) : mst * verdict :=
       (* entities of p announced as removed (entity-removed event) take their entries with them *)
       let gone := flat_map (fun x => match x with OEvent EvEntity ChRemove _ (Some e) _ _ => [e] | _ => [] end) out in
       (advance m o (filter (fun x => negb (N.eqb (s_ski x) p && existsb (eqb_eaddr (fa_ent (s_cli x))) gone)) (reg m)),
+       check (negb (existsb is_notify out)) CL_STRAY)
+  | DiscoveryReply p dm =>
+      (* the reply completes the address of the node-management feature it came in through (entries
+         made through it before the reply carry the device address from now on), and the entities
+         it no longer lists are removed (entity-removed event) with their entries *)
+      let gone := flat_map (fun x => match x with OEvent EvEntity ChRemove _ (Some e) _ _ => [e] | _ => [] end) out in
+      let r1 := match nm_completion (w m) p dm out with
+                | Some d => map (complete_entry p d) (reg m)
+                | None => reg m
+                end in
+      (advance m o (filter (fun x => negb (N.eqb (s_ski x) p && existsb (eqb_eaddr (fa_ent (s_cli x))) gone)) r1),
        check (negb (existsb is_notify out)) CL_STRAY)
   | _ => (advance m o (reg m), quiet out)
   end.
